@@ -290,17 +290,37 @@ done:
 static ares_status_t config_search(ares_sysconfig_t *sysconfig, const char *str,
                                    size_t max_domains)
 {
-  if (sysconfig->domains && sysconfig->ndomains > 0) {
-    /* if we already have some domains present, free them first */
-    ares_strsplit_free(sysconfig->domains, sysconfig->ndomains);
-    sysconfig->domains  = NULL;
-    sysconfig->ndomains = 0;
+  ares_buf_t   *buf;
+  char        **domains  = NULL;
+  size_t        ndomains = 0;
+  ares_status_t status;
+
+  buf = ares_buf_create_const((const unsigned char *)str, ares_strlen(str));
+  if (buf == NULL) {
+    return ARES_ENOMEM; /* LCOV_EXCL_LINE: OutOfMemory */
   }
 
-  sysconfig->domains = ares_strsplit(str, ", ", &sysconfig->ndomains);
-  if (sysconfig->domains == NULL) {
-    return ARES_ENOMEM;
+  status = ares_buf_split_str(
+    buf, (const unsigned char *)", ", 2,
+    ARES_BUF_SPLIT_NO_DUPLICATES | ARES_BUF_SPLIT_CASE_INSENSITIVE, 0, &domains,
+    &ndomains);
+  ares_buf_destroy(buf);
+  if (status != ARES_SUCCESS) {
+    return status == ARES_ENOMEM ? ARES_ENOMEM : ARES_SUCCESS;
   }
+
+  /* A line that names no domain at all (e.g. only separators) is ignored, it
+   * must not discard what was configured before nor fail the whole
+   * configuration */
+  if (domains == NULL || ndomains == 0) {
+    ares_strsplit_free(domains, ndomains);
+    return ARES_SUCCESS;
+  }
+
+  /* Replace the domains we already have, if any */
+  ares_strsplit_free(sysconfig->domains, sysconfig->ndomains);
+  sysconfig->domains  = domains;
+  sysconfig->ndomains = ndomains;
 
   /* Truncate if necessary */
   if (max_domains && sysconfig->ndomains > max_domains) {
